@@ -22,19 +22,13 @@ Theorem C15_startup_total_dir :
 Proof. exact load_dir_total. Qed.
 Print Assumptions C15_startup_total_dir.
 
-(* All or nothing (sorted docs, the default): in every reachable state the next start serves the
+(* All or nothing, with and without sorted docs: in every reachable state the next start serves the
    fraction from files that hold all its documents, or does not serve it and no document-bearing
    file of it (.docs .sdocs .index *.del) stays behind; a fraction that had a .del file or that a
    start dropped is never served again; what the running process believes is consistent with it. *)
-Theorem C15_all_or_nothing : forall s, reachable cur_progs true s -> st_good true true s = true.
-Proof. exact good_sorted. Qed.
+Theorem C15_all_or_nothing : forall sorted s, reachable cur_progs sorted s -> st_good true sorted s = true.
+Proof. exact good_all. Qed.
 Print Assumptions C15_all_or_nothing.
-
-(* SkipSortDocs: the same except that a lone .index may stay behind (see the refutation below). *)
-Theorem C15_all_or_nothing_unsorted_partial :
-  forall s, reachable cur_progs false s -> st_good false false s = true.
-Proof. exact good_unsorted_relaxed. Qed.
-Print Assumptions C15_all_or_nothing_unsorted_partial.
 
 (* Retention: the pass removes a prefix of the list — whole fractions, oldest first —, enough of it
    (total <= limit or nothing left) and not more than needed. *)
@@ -85,11 +79,11 @@ Proof. exact v1_fatal. Qed.
 Example C15_nodel_refuted : exists s, reachable nodel_progs true s /\ negb (st_good true true s) = true.
 Proof. exact nodel_bad. Qed.
 
-(* FINDING on the current code with SkipSortDocs: seal publishes .index, crash before .meta is
-   removed, restart (replayed as active), retention deletes it as an active fraction: .index stays *)
-Example C15_unsorted_lone_index_refuted :
-  exists s, reachable cur_progs false s /\ negb (st_good true false s) = true.
-Proof. exact unsorted_lone_index. Qed.
+(* before fix 30ce157, with SkipSortDocs: seal publishes .index, crash before .meta is removed,
+   restart (replayed as active), retention deletes it as an active fraction: .index stays forever *)
+Example C15_unsorted_lone_index_v2_refuted :
+  exists s, reachable v2_progs false s /\ negb (st_good true false s) = true.
+Proof. exact v2_lone_index. Qed.
 
 (* a sealed fraction younger than an unsealed one is listed (and so removed) before it *)
 Example C15_load_order_unordered_refuted :
